@@ -3,8 +3,10 @@ package props
 import (
 	"bytes"
 	"context"
+	"encoding/json"
 	"fmt"
 	"github.com/fullstorydev/grpchan/httpgrpc"
+	"github.com/fullstorydev/grpchan/inprocgrpc"
 	"google.golang.org/protobuf/proto"
 	"io"
 	"math/rand"
@@ -23,6 +25,18 @@ import (
 )
 
 func init() { core.Register("C08", checkC08) }
+
+// plainMsg is a message type that is not a protobuf message; plainJSONCodec carries it.
+type plainMsg struct {
+	Text string
+	N    int
+}
+
+type plainJSONCodec struct{}
+
+func (plainJSONCodec) Marshal(v interface{}) ([]byte, error)      { return json.Marshal(v) }
+func (plainJSONCodec) Unmarshal(data []byte, v interface{}) error { return json.Unmarshal(data, v) }
+func (plainJSONCodec) Name() string                               { return "plain-json" }
 
 func checkC08(e *core.Env) {
 	curEnv = e
@@ -121,6 +135,47 @@ func checkC08(e *core.Env) {
 		out := run.ClientOutcome()
 		if out.Seen && out.OK {
 			e.Violate("inproc/unary/nil-response-success", "unary handler returned neither response nor error, client reported success", witness(run))
+		}
+	})
+
+	// messages that are not protobuf messages (a channel configured with a codec-based cloner carries any type
+	// its codec can encode): a handler returning a typed nil pointer and no error has produced no response
+	e.Cases("nil-unary-plain-type", e.N(12, 60), func(i int, r *rand.Rand) {
+		ch := &inprocgrpc.Channel{}
+		ch.WithCloner(inprocgrpc.CodecCloner(plainJSONCodec{}))
+		mode := i % 3 // 0: typed nil, no error   1: a response   2: typed nil and an error
+		ch.RegisterService(&grpc.ServiceDesc{
+			ServiceName: "verif.Plain",
+			HandlerType: (*interface{})(nil),
+			Methods: []grpc.MethodDesc{{MethodName: "Get", Handler: func(srv interface{}, ctx context.Context, dec func(interface{}) error, _ grpc.UnaryServerInterceptor) (interface{}, error) {
+				req := new(plainMsg)
+				if err := dec(req); err != nil {
+					return nil, err
+				}
+				switch mode {
+				case 0:
+					return (*plainMsg)(nil), nil
+				case 1:
+					return &plainMsg{Text: "re: " + req.Text, N: req.N + 1}, nil
+				}
+				return (*plainMsg)(nil), status.Error(codes.NotFound, "nothing there")
+			}}},
+		}, struct{}{})
+		req := &plainMsg{Text: fmt.Sprintf("q%d", r.Intn(1000)), N: r.Intn(100)}
+		resp := &plainMsg{Text: "previous content", N: -1}
+		var err error
+		pan := guard(func() { err = ch.Invoke(context.Background(), "/verif.Plain/Get", req, resp) })
+		e.Eval(fmt.Sprintf("nil-unary-plain-type|%d", mode), true)
+		w := map[string]any{"mode": mode, "err": fmt.Sprint(err), "resp": fmt.Sprintf("%+v", *resp)}
+		switch {
+		case pan != "":
+			e.Violate("inproc/unary/plain-type/panic", trunc(pan, 400), w)
+		case mode == 0 && err == nil:
+			e.Violate("inproc/unary/plain-type/nil-response-success", "a unary handler returned a typed nil pointer (not a protobuf message) and no error; the client reported success", w)
+		case mode == 1 && (err != nil || resp.Text != "re: "+req.Text || resp.N != req.N+1):
+			e.Violate("inproc/unary/plain-type/response-lost", fmt.Sprintf("the handler's one response did not arrive: err=%v resp=%+v", err, *resp), w)
+		case mode == 2 && status.Code(err) != codes.NotFound:
+			e.Violate("inproc/unary/plain-type/error-lost", fmt.Sprintf("the handler failed with NotFound; the client saw %v", err), w)
 		}
 	})
 
